@@ -779,6 +779,12 @@ pub enum Outcome {
 }
 
 pub fn run_jaeger(udp: &UdpSink, batch: &[Rec], prop: &str) -> Outcome {
+    run_jaeger_seq(udp, &[], batch, prop)
+}
+
+/// `prior`: batches reported through the same reporter object before the batch that is checked
+/// (a reporter lives as long as the process and sees every batch of the collector)
+pub fn run_jaeger_seq(udp: &UdpSink, prior: &[Vec<Rec>], batch: &[Rec], prop: &str) -> Outcome {
     if TIMED_OUT.load(std::sync::atomic::Ordering::SeqCst) {
         // a previous report() call of this process never returned: its thread is still sending,
         // nothing measured from now on would be meaningful (and shrinking must not wait 30 s per step)
@@ -786,6 +792,31 @@ pub fn run_jaeger(udp: &UdpSink, batch: &[Rec], prop: &str) -> Outcome {
     }
     let addr = format!("127.0.0.1:{}", udp.port).parse().unwrap();
     let mut rep = fastrace_jaeger::JaegerReporter::new(addr, SERVICE).unwrap();
+    // earlier batches: the calls must terminate too; their datagrams are drained, not checked
+    for (k, pb) in prior.iter().enumerate() {
+        let records: Vec<_> = pb.iter().map(|r| r.to_record()).collect();
+        let (tx, rx) = channel();
+        let mut back = None;
+        let _ = capture_udp(udp, || {
+            let h = std::thread::spawn(move || {
+                rep.report(records);
+                let _ = tx.send(());
+                rep
+            });
+            if rx.recv_timeout(Duration::from_secs(30)).is_err() {
+                TIMED_OUT.store(true, std::sync::atomic::Ordering::SeqCst);
+                std::mem::forget(h);
+            } else {
+                back = h.join().ok();
+            }
+        });
+        match back {
+            Some(r) => rep = r,
+            None => {
+                return Outcome::Viols(vec![v("report-did-not-return", format!("JaegerReporter::report did not return within 30 s for earlier batch #{} ({} records) of the same reporter", k, pb.len()))]);
+            }
+        }
+    }
     let records: Vec<_> = batch.iter().map(|r| r.to_record()).collect();
     // the call must terminate: run it on a helper thread with a deadline
     let (tx, rx) = channel();
@@ -806,7 +837,7 @@ pub fn run_jaeger(udp: &UdpSink, batch: &[Rec], prop: &str) -> Outcome {
         // the call must terminate; 30 s for one batch of at most a few hundred records on
         // loopback is three orders of magnitude above the normal time. The process is not
         // reusable afterwards (the reporter thread keeps running), so stop here.
-        return Outcome::Viols(vec![v("report-did-not-return", format!("JaegerReporter::report did not return within 30 s for a batch of {} records", batch.len()))]);
+        return Outcome::Viols(vec![v("report-did-not-return", format!("JaegerReporter::report did not return within 30 s for a batch of {} records (after {} earlier batches on the same reporter)", batch.len(), prior.len()))]);
     }
     match res {
         Err(e) => Outcome::Inconclusive(e),
